@@ -9,6 +9,7 @@ import (
 	"math/rand"
 	"os"
 	"strings"
+	"sync"
 
 	"github.com/nuetzliches/hookaido/verif/l0"
 )
@@ -85,11 +86,10 @@ func l0Drive(args []string) error {
 		defer sw.Flush()
 	}
 	r := rand.New(rand.NewSource(*seed))
-	traces := 0
+	perShard := make([][]l0.Schedule, len(runs))
 	for i := 0; i < *n; i++ {
 		cfg := l0.ProfileCfg(r, l0.RandomCfg(r), *profile)
 		o := l0.DriverOpts{Ops: *ops, IDs: *ids, Routes: 1 + r.Intn(3), Targets: 1 + r.Intn(3), Explicit: r.Intn(3) == 0, Profile: *profile}
-		run := runs[i%len(runs)]
 		if *bigEvery > 0 && i%*bigEvery == *bigEvery-1 {
 			o.BigPop = true
 			o.Ops = 13 + 4 + 25
@@ -101,13 +101,35 @@ func l0Drive(args []string) error {
 			b, _ := json.Marshal(s)
 			sw.Write(append(b, '\n'))
 		}
-		for _, be := range strings.Split(*backends, ",") {
-			c := l0.BackendCfg(s.Cfg, be, *reference)
-			if err := run.Run(s.Name+"/"+be, c, s.Ops); err != nil {
-				return err
+		perShard[i%len(runs)] = append(perShard[i%len(runs)], s)
+	}
+	bes := strings.Split(*backends, ",")
+	counts := make([]int, len(runs))
+	errs := make([]error, len(runs))
+	var wg sync.WaitGroup
+	for i := range runs {
+		wg.Add(1)
+		go func(i int) {
+			defer wg.Done()
+			for _, s := range perShard[i] {
+				for _, be := range bes {
+					c := l0.BackendCfg(s.Cfg, be, *reference)
+					if err := runs[i].Run(s.Name+"/"+be, c, s.Ops); err != nil {
+						errs[i] = err
+						return
+					}
+					counts[i]++
+				}
 			}
-			traces++
+		}(i)
+	}
+	wg.Wait()
+	traces := 0
+	for i := range runs {
+		if errs[i] != nil {
+			return errs[i]
 		}
+		traces += counts[i]
 	}
 	events := 0
 	for _, run := range runs {
@@ -175,7 +197,12 @@ func l0Run(args []string) error {
 	defer closeAll()
 	sc := bufio.NewScanner(inf)
 	sc.Buffer(make([]byte, 1<<20), 1<<28)
-	traces, k := 0, 0
+	type job struct {
+		s l0.Schedule
+		k int
+	}
+	perShard := make([][]job, len(runs))
+	k := 0
 	for sc.Scan() {
 		line := sc.Bytes()
 		if len(line) == 0 {
@@ -186,20 +213,41 @@ func l0Run(args []string) error {
 			return err
 		}
 		k++
-		run := runs[k%len(runs)]
-		for _, be := range strings.Split(*backends, ",") {
-			if be == "sqlite" && *sample > 1 && k%*sample != 0 {
-				continue
-			}
-			c := l0.BackendCfg(s.Cfg, be, *reference)
-			if err := run.Run(s.Name+"/"+be, c, s.Ops); err != nil {
-				return err
-			}
-			traces++
-		}
+		perShard[k%len(runs)] = append(perShard[k%len(runs)], job{s, k})
 	}
 	if err := sc.Err(); err != nil {
 		return err
+	}
+	bes := strings.Split(*backends, ",")
+	counts := make([]int, len(runs))
+	errs := make([]error, len(runs))
+	var wg sync.WaitGroup
+	for i := range runs {
+		wg.Add(1)
+		go func(i int) {
+			defer wg.Done()
+			for _, j := range perShard[i] {
+				for _, be := range bes {
+					if be == "sqlite" && *sample > 1 && j.k%*sample != 0 {
+						continue
+					}
+					c := l0.BackendCfg(j.s.Cfg, be, *reference)
+					if err := runs[i].Run(j.s.Name+"/"+be, c, j.s.Ops); err != nil {
+						errs[i] = err
+						return
+					}
+					counts[i]++
+				}
+			}
+		}(i)
+	}
+	wg.Wait()
+	traces := 0
+	for i := range runs {
+		if errs[i] != nil {
+			return errs[i]
+		}
+		traces += counts[i]
 	}
 	events := 0
 	for _, run := range runs {
